@@ -100,6 +100,7 @@ func (x *Exec) invoke(fr *Frame, st *State, c *ssa.CallCommon, recv Value, args 
 	}
 	// interface method contract?
 	name := "(" + typeName(recv.T) + ")." + c.Method.Name()
+	x.logCall(st, name, append([]Value{recv}, args...))
 	if m, ok := x.models[name]; ok {
 		return m(x, fr, st, append([]Value{recv}, args...), pos)
 	}
@@ -115,11 +116,25 @@ func (x *Exec) callFn(fr *Frame, st *State, fn *ssa.Function, args []Value, bind
 	if o := fn.Origin(); o != nil {
 		full = o.String()
 	}
+	x.logCall(st, strings.ReplaceAll(full, modulePrefix, ""), args)
 	if x.inInit && fn.Name() == "init" && fn.Pkg != x.initPkg {
 		return []Outcome{{St: st, Kind: OutReturn}}
 	}
 	if m, ok := x.models[full]; ok {
 		return m(x, fr, st, args, pos)
+	}
+	if pureFuncs[full] {
+		var rets []Value
+		for i := 0; i < fn.Signature.Results().Len(); i++ {
+			rets = append(rets, x.freshValue(st, "pure_"+fn.Name(), fn.Signature.Results().At(i).Type()))
+		}
+		x.c.note("assumed: %s only reads its arguments (result unconstrained)", full)
+		if ctorFuncs[full] && len(rets) == 2 {
+			// library constructor convention: a nil error comes with a non-nil result
+			st.assume(Implies(Eq(rets[1].L[0], IntLit(0)), Not(Eq(rets[0].L[0], IntLit(0)))))
+			x.c.note("assumed: %s returns a non-nil value whenever it returns a nil error", full)
+		}
+		return []Outcome{{St: st, Kind: OutReturn, Rets: rets}}
 	}
 	if isNoEffect(fn) {
 		var rets []Value
@@ -459,11 +474,25 @@ func (x *Exec) callContract(fr *Frame, st *State, fn *ssa.Function, fc *FuncCont
 			x.havocModifies(cfr, st, pre, m)
 		}
 	}
+	// the callee may have called anything: the caller's ghost call log is stale
+	st.calls = map[string][]Value{}
+	for _, k := range sortedKeys(st.ghost) {
+		if strings.HasPrefix(k, "ncalls:") {
+			st.ghost[k] = x.c.Fresh("ghost_ncalls", idxSort)
+			if st.written != nil {
+				if st.written.ghost == nil {
+					st.written.ghost = map[string]bool{}
+				}
+				st.written.ghost[k] = true
+			}
+		}
+	}
+	x.logCall(st, contractKey(fn), args)
 	// results
 	x.bumpAlloc(st)
 	var rets []Value
 	res := fn.Signature.Results()
-	scope := &specScope{x: x, fr: cfr, st: st, old: pre, results: map[string]Value{}}
+	scope := &specScope{x: x, fr: cfr, st: st, old: pre, results: map[string]Value{}, assumeMode: true}
 	for i := 0; i < res.Len(); i++ {
 		rv := x.freshValue(st, "r_"+fn.Name(), res.At(i).Type())
 		rets = append(rets, rv)
@@ -476,8 +505,19 @@ func (x *Exec) callContract(fr *Frame, st *State, fn *ssa.Function, fc *FuncCont
 		}
 	}
 	for _, en := range fc.Ensures {
-		v := x.evalSpec(scope, en.Expr)
-		st.assume(v.L[0])
+		// clauses about the callee's own ghost call log cannot be stated in the caller's scope: skipped
+		func() {
+			defer func() {
+				if p := recover(); p != nil {
+					if u, ok := p.(unsupported); ok && strings.Contains(u.msg, "no recorded call") {
+						return
+					}
+					panic(p)
+				}
+			}()
+			v := x.evalSpec(scope, en.Expr)
+			st.assume(v.L[0])
+		}()
 	}
 	outs := []Outcome{{St: st, Kind: OutReturn, Rets: rets}}
 	return outs
